@@ -28,7 +28,7 @@ Proof.
          gp_state gp_cls gp_id gp_len gp_data gp_cka gp_ckb gp_ofs gp_ck gp_queue gp_rx gp_filt g_cka g_ckb
          to_model ck_of step with_st with_rg st rg queue rx filt mcls mid mlen mdata mcka mckb ofs cks regs0
          ck_add ck_reset ck_matches MAX_MESSAGE_LENGTH fst snd];
-    split_ifs; try reflexivity; try (norm_mask; f_equal; f_equal; lia); try lia.
+    split_ifs; try reflexivity; try (norm_mask; f_equal; f_equal; lia); try lia; try (exfalso; lia).
 Qed.
 
 Theorem bridge_process : forall data g, to_model (g_process g data) = process (to_model g) data.
